@@ -14,7 +14,9 @@
 //!   local URI = From URI.
 //! * 12.2.1.1: To = remote URI + remote tag, From = local URI + local tag, Call-ID = the dialog's,
 //!   CSeq strictly monotonically increasing (local seq + 1 when not empty; ACK carries the number of
-//!   the INVITE it acknowledges), Request-URI = remote target and Route = route set in order when the
+//!   the INVITE it acknowledges; local seq of a UAC = the number of the INVITE the dialog-creating
+//!   response answers, which need not be the first INVITE the application sent for that call),
+//!   Request-URI = remote target and Route = route set in order when the
 //!   route set is empty (no Route at all) or starts with a loose router (`lr`).  When the first route
 //!   lacks `lr` the strict-routing rewrite applies (Request-URI = first route, Route = rest + remote
 //!   target); the model offers that form as an *alternative* (`Template::strict`), because the property
@@ -518,6 +520,11 @@ pub struct CSeqTracker {
     pub last: Option<u32>,
     /// numbers of the INVITEs created inside the dialog (an ACK may reuse one of them)
     pub invites: Vec<u32>,
+    /// UAC: CSeq numbers of earlier, rejected attempts of the same INVITE (sent before the dialog existed).
+    /// They are NOT part of the rule (the floor is the INVITE that created the dialog); they only name the
+    /// failure: when an earlier attempt carried another number than the creating INVITE, a first request
+    /// that is not above the floor is reported as `first-not-above-renumbered-invite`.
+    pub earlier_attempts: Vec<u32>,
 }
 
 impl CSeqTracker {
@@ -526,6 +533,15 @@ impl CSeqTracker {
             floor: dialog.local_seq,
             last: dialog.local_seq,
             invites: dialog.local_seq.into_iter().collect(),
+            earlier_attempts: vec![],
+        }
+    }
+
+    /// locus for "a request directly after the dialog-creating INVITE is not above that INVITE's number"
+    pub fn floor_locus(&self) -> &'static str {
+        match self.floor {
+            Some(f) if self.earlier_attempts.iter().any(|e| *e != f) => "first-not-above-renumbered-invite",
+            _ => "first-not-above-invite",
         }
     }
 
@@ -551,9 +567,14 @@ impl CSeqTracker {
         if let Some(last) = self.last {
             if n <= last {
                 if self.floor == Some(last) {
+                    let earlier = if self.earlier_attempts.is_empty() {
+                        String::new()
+                    } else {
+                        format!(" (earlier, rejected attempts of that INVITE had {:?})", self.earlier_attempts)
+                    };
                     bad.push((
-                        "first-not-above-invite",
-                        format!("first request in the dialog has CSeq {n}, the INVITE that created it had {last}"),
+                        self.floor_locus(),
+                        format!("first request in the dialog has CSeq {n}, the INVITE that created it had {last}{earlier}"),
                     ));
                 } else {
                     bad.push(("not-increasing", format!("CSeq {n} follows {last}")));
